@@ -28,8 +28,8 @@ use trust_runtime::harness::TestHarness;
 use trust_runtime::io::{IoAddress, IoDriver, IoInterface, IoSize, IoTarget};
 use trust_runtime::memory::{InstanceId, IoArea, MemoryLocation, VariableStorage};
 use trust_runtime::value::{
-    read_partial_access, write_partial_access, Duration, PartialAccess, PartialAccessError, Value,
-    ValueRef,
+    read_partial_access, write_partial_access, Duration, PartialAccess, PartialAccessError, RefSegment,
+    Value, ValueRef,
 };
 
 // ------------------------------------------------------------------------------------------------
@@ -316,7 +316,8 @@ impl Ty {
             Ty::ULInt => "ulint",
             Ty::LWord => "lword",
             Ty::LReal => "lreal",
-            Ty::Time | Ty::Str => "other",
+            Ty::Time => "time",
+            Ty::Str => "other",
         }
     }
     fn id(self) -> TypeId {
@@ -547,7 +548,29 @@ fn run_raw(n: u64, rng: &mut Rng, ops: usize, out: &mut Out) {
     let mut distinct_sizes = std::collections::BTreeSet::new();
     let mut overlaps = false;
     for _ in 0..ops {
-        let ad = if !recent.is_empty() && rng.chance(1, 3) {
+        let hier: Vec<Ad> = recent.iter().filter(|a| a.path.len() > 1 && !a.wild).cloned().collect();
+        let ad = if !hier.is_empty() && rng.chance(1, 5) {
+            // a hierarchical address that differs from an earlier one in exactly one key field
+            // (or in none): the key is (area, size, path, bit)
+            let mut a = rng.pick(&hier).clone();
+            match rng.below(5) {
+                0 => a.bit = if a.size == Sz::X { rng.below(8) as u8 } else { a.bit },
+                1 => {
+                    a.size = gen_size(rng);
+                    if a.size != Sz::X {
+                        a.bit = 0;
+                    }
+                }
+                2 => a.area = gen_area(rng),
+                3 => {
+                    let k = a.path.len() - 1;
+                    a.path[k] = rng.below(3) as u32;
+                }
+                _ => {}
+            }
+            out.count("raw_hier_neighbour");
+            a
+        } else if !recent.is_empty() && rng.chance(1, 3) {
             rng.pick(&recent).clone()
         } else {
             gen_addr(rng, span)
@@ -1012,15 +1035,50 @@ fn run_bind(n: u64, rng: &mut Rng, out: &mut Out) {
 // rt cases: compiled CONFIGURATION + logging drivers
 // ------------------------------------------------------------------------------------------------
 
+/// How a leaf variable is reached inside its declaration.
+#[derive(Clone, Debug, PartialEq)]
+enum Access {
+    Plain,
+    Index(i64),
+    Field(usize),
+}
+
+/// One leaf variable (elementary value): what the model calls a variable.
 #[derive(Clone, Debug)]
 struct VarSpec {
     /// None = global, Some(p) = local of program p
     prog: Option<usize>,
     ty: Ty,
-    at: Option<Ad>,
-    init: Value,
+    /// the declaration the leaf belongs to
+    decl: usize,
+    access: Access,
     /// never the source of a copy (so that wrong-kind values cannot reach expression evaluation)
     sink_only: bool,
+}
+
+#[derive(Clone, Debug)]
+enum DeclKind {
+    Elem,
+    Array { lo: i64 },
+    Struct,
+}
+
+/// One declaration of the generated source: an elementary variable, a one-dimensional array or a
+/// structure of elementary fields; optionally `AT` a direct address.
+#[derive(Clone, Debug)]
+struct Decl {
+    prog: Option<usize>,
+    kind: DeclKind,
+    /// first leaf and number of leaves
+    first: usize,
+    n: usize,
+    /// the declared address as `IoAddress::parse` yields it; the size letter is arbitrary (the
+    /// binding's size comes from the leaf type)
+    at: Option<Ad>,
+    /// DINT initial value (used for the fault triggers)
+    init: i32,
+    /// literal type name for the witness cases
+    type_override: Option<String>,
 }
 
 #[derive(Clone, Debug)]
@@ -1033,6 +1091,7 @@ enum Stmt {
 #[derive(Clone, Debug)]
 struct RtCase {
     vars: Vec<VarSpec>,
+    decls: Vec<Decl>,
     progs: Vec<Vec<Stmt>>,
     /// task index per program (None = background)
     prog_task: Vec<Option<usize>>,
@@ -1043,35 +1102,110 @@ struct RtCase {
     debug: bool,
     /// trigger variable of each program's division
     fz: Vec<usize>,
-    /// literal declaration for witness cases (type name override per variable)
-    decl_override: Vec<Option<String>>,
     extra_types: String,
 }
 
-fn var_name(vars: &[VarSpec], i: usize) -> String {
-    match vars[i].prog {
-        None => format!("g{i}"),
-        Some(_) => format!("l{i}"),
+impl RtCase {
+    /// Adds a declaration with its leaves; returns the id of the first leaf.
+    fn add_decl(
+        &mut self,
+        prog: Option<usize>,
+        kind: DeclKind,
+        leaf_tys: &[Ty],
+        at: Option<Ad>,
+        init: i32,
+        sink_only: bool,
+    ) -> usize {
+        let first = self.vars.len();
+        let d = self.decls.len();
+        for (k, ty) in leaf_tys.iter().enumerate() {
+            let access = match &kind {
+                DeclKind::Elem => Access::Plain,
+                DeclKind::Array { lo } => Access::Index(lo + k as i64),
+                DeclKind::Struct => Access::Field(k),
+            };
+            self.vars.push(VarSpec { prog, ty: *ty, decl: d, access, sink_only });
+        }
+        self.decls.push(Decl { prog, kind, first, n: leaf_tys.len(), at, init, type_override: None });
+        first
+    }
+    fn is_bound(&self, i: usize) -> bool {
+        self.decls[self.vars[i].decl].at.is_some()
+    }
+    fn nbindings(&self) -> usize {
+        self.decls.iter().filter(|d| d.at.is_some()).map(|d| d.n).sum()
+    }
+}
+
+fn decl_name(d: &Decl) -> String {
+    match d.prog {
+        None => format!("g{}", d.first),
+        Some(_) => format!("l{}", d.first),
+    }
+}
+
+/// ST access path of a leaf.
+fn var_name(c: &RtCase, i: usize) -> String {
+    let d = &c.decls[c.vars[i].decl];
+    match &c.vars[i].access {
+        Access::Plain => decl_name(d),
+        Access::Index(k) => format!("{}[{k}]", decl_name(d)),
+        Access::Field(j) => format!("{}.f{j}", decl_name(d)),
+    }
+}
+
+fn decl_type(c: &RtCase, d: &Decl) -> String {
+    if let Some(t) = &d.type_override {
+        return t.clone();
+    }
+    match &d.kind {
+        DeclKind::Elem => c.vars[d.first].ty.st().to_string(),
+        DeclKind::Array { lo } => format!(
+            "ARRAY[{}..{}] OF {}",
+            lo,
+            lo + d.n as i64 - 1,
+            c.vars[d.first].ty.st()
+        ),
+        DeclKind::Struct => format!("S{}", d.first),
+    }
+}
+
+/// Shape token for the model: `e:<ty>` | `a:<len>:<ty>` | `s:<ty>,<ty>,…`.
+fn shape_tok(c: &RtCase, d: &Decl) -> String {
+    match &d.kind {
+        DeclKind::Elem => format!("e:{}", c.vars[d.first].ty.tok()),
+        DeclKind::Array { .. } => format!("a:{}:{}", d.n, c.vars[d.first].ty.tok()),
+        DeclKind::Struct => format!(
+            "s:{}",
+            join((0..d.n).map(|k| c.vars[d.first + k].ty.tok()), ",")
+        ),
     }
 }
 
 fn render_rt(c: &RtCase) -> String {
     let mut s = String::new();
     s.push_str(&c.extra_types);
+    for d in &c.decls {
+        if matches!(d.kind, DeclKind::Struct) {
+            s.push_str(&format!("TYPE S{} :\nSTRUCT\n", d.first));
+            for k in 0..d.n {
+                s.push_str(&format!("    f{k} : {};\n", c.vars[d.first + k].ty.st()));
+            }
+            s.push_str("END_STRUCT\nEND_TYPE\n");
+        }
+    }
     s.push_str("CONFIGURATION C\nVAR_GLOBAL\n");
-    let decl = |i: usize, v: &VarSpec| -> String {
-        let ty = c.decl_override[i].clone().unwrap_or_else(|| v.ty.st().to_string());
-        match &v.at {
-            Some(a) => format!("    {} AT {} : {};\n", var_name(&c.vars, i), a.text().expect("text"), ty),
-            None => match &v.init {
-                Value::DInt(x) if *x != 0 => format!("    {} : {} := {};\n", var_name(&c.vars, i), ty, x),
-                _ => format!("    {} : {};\n", var_name(&c.vars, i), ty),
-            },
+    let decl = |d: &Decl| -> String {
+        let ty = decl_type(c, d);
+        match &d.at {
+            Some(a) => format!("    {} AT {} : {};\n", decl_name(d), a.text().expect("text"), ty),
+            None if d.init != 0 => format!("    {} : {} := {};\n", decl_name(d), ty, d.init),
+            None => format!("    {} : {};\n", decl_name(d), ty),
         }
     };
-    for (i, v) in c.vars.iter().enumerate() {
-        if v.prog.is_none() {
-            s.push_str(&decl(i, v));
+    for d in &c.decls {
+        if d.prog.is_none() {
+            s.push_str(&decl(d));
         }
     }
     s.push_str("END_VAR\n");
@@ -1087,35 +1221,26 @@ fn render_rt(c: &RtCase) -> String {
     s.push_str("END_CONFIGURATION\n\n");
     for (p, body) in c.progs.iter().enumerate() {
         s.push_str(&format!("PROGRAM Prog{p}\nVAR_EXTERNAL\n"));
-        for (i, v) in c.vars.iter().enumerate() {
-            if v.prog.is_none() {
-                let ty = c.decl_override[i].clone().unwrap_or_else(|| v.ty.st().to_string());
-                s.push_str(&format!("    g{i} : {ty};\n"));
+        for d in &c.decls {
+            if d.prog.is_none() {
+                s.push_str(&format!("    {} : {};\n", decl_name(d), decl_type(c, d)));
             }
         }
         s.push_str("END_VAR\nVAR\n");
-        for (i, v) in c.vars.iter().enumerate() {
-            if v.prog == Some(p) {
-                s.push_str(&decl(i, v));
+        for d in &c.decls {
+            if d.prog == Some(p) {
+                s.push_str(&decl(d));
             }
         }
         s.push_str("END_VAR\n");
         for st in body {
             match st {
-                Stmt::Copy(d, src) => s.push_str(&format!(
-                    "{} := {};\n",
-                    var_name(&c.vars, *d),
-                    var_name(&c.vars, *src)
-                )),
-                Stmt::DivBy(d, v) => s.push_str(&format!(
-                    "{} := 100 / {};\n",
-                    var_name(&c.vars, *d),
-                    var_name(&c.vars, *v)
-                )),
+                Stmt::Copy(d, src) => s.push_str(&format!("{} := {};\n", var_name(c, *d), var_name(c, *src))),
+                Stmt::DivBy(d, v) => s.push_str(&format!("{} := 100 / {};\n", var_name(c, *d), var_name(c, *v))),
                 Stmt::Stamp(seq, d) => s.push_str(&format!(
                     "{0} := {0} + 1;\n{1} := {0};\n",
-                    var_name(&c.vars, *seq),
-                    var_name(&c.vars, *d)
+                    var_name(c, *seq),
+                    var_name(c, *d)
                 )),
             }
         }
@@ -1148,49 +1273,64 @@ fn gen_rt(rng: &mut Rng) -> RtCase {
         rng.below(7) as usize,
     ];
     let span = 2 + rng.below(9) as u32;
-    let mut vars: Vec<VarSpec> = Vec::new();
+    let mut c = RtCase {
+        vars: Vec::new(),
+        decls: Vec::new(),
+        progs: Vec::new(),
+        prog_task,
+        prio,
+        ndrivers: rng.below(4) as usize,
+        sizes,
+        debug: rng.chance(1, 3),
+        fz: Vec::new(),
+        extra_types: String::new(),
+    };
     // 0: seq
-    vars.push(VarSpec { prog: None, ty: Ty::DInt, at: None, init: Value::DInt(0), sink_only: true });
-    let mut fz = Vec::new();
+    c.add_decl(None, DeclKind::Elem, &[Ty::DInt], None, 0, true);
     let mut stamp = Vec::new();
     let mut fq = Vec::new();
     for p in 0..nprogs {
-        fz.push(vars.len());
-        vars.push(VarSpec { prog: None, ty: Ty::DInt, at: None, init: Value::DInt(1), sink_only: true });
-        stamp.push(vars.len());
-        vars.push(VarSpec { prog: Some(p), ty: Ty::DInt, at: None, init: Value::DInt(0), sink_only: true });
-        fq.push(vars.len());
-        vars.push(VarSpec { prog: Some(p), ty: Ty::DInt, at: None, init: Value::DInt(0), sink_only: true });
+        let z = c.add_decl(None, DeclKind::Elem, &[Ty::DInt], None, 1, true);
+        c.fz.push(z);
+        stamp.push(c.add_decl(Some(p), DeclKind::Elem, &[Ty::DInt], None, 0, true));
+        fq.push(c.add_decl(Some(p), DeclKind::Elem, &[Ty::DInt], None, 0, true));
     }
+    let nspecial = c.vars.len();
     // a small palette of types so that same-typed copies are frequent
     let npal = 1 + rng.below(4) as usize;
     let palette: Vec<Ty> = (0..npal).map(|_| *rng.pick(&ELEMENTARY)).collect();
-    let nbound = 3 + rng.below(9) as usize;
+    let nbound = 3 + rng.below(8) as usize;
     for _ in 0..nbound {
-        let ty = *rng.pick(&palette);
         let area = *rng.pick(&[Ar::I, Ar::I, Ar::Q, Ar::Q, Ar::M]);
-        let byte = rng.below(u64::from(span)) as u32;
-        let bit = if ty == Ty::Bool { rng.below(8) as u8 } else { 0 };
         let prog = if rng.bool() { None } else { Some(rng.below(nprogs as u64) as usize) };
-        vars.push(VarSpec {
-            prog,
-            ty,
-            at: Some(Ad::flat(area, ty.size(), byte, bit)),
-            init: ty.zero(),
-            sink_only: area == Ar::Q && rng.chance(1, 4),
-        });
+        let (kind, tys): (DeclKind, Vec<Ty>) = match rng.below(10) {
+            0 | 1 => {
+                let ty = *rng.pick(&palette);
+                let len = 1 + rng.below(4) as usize;
+                (DeclKind::Array { lo: rng.range(-1, 2) }, vec![ty; len])
+            }
+            2 => {
+                let nf = 2 + rng.below(3) as usize;
+                (DeclKind::Struct, (0..nf).map(|_| *rng.pick(&palette)).collect())
+            }
+            _ => (DeclKind::Elem, vec![*rng.pick(&palette)]),
+        };
+        // the letter of the declaration is the leaf's own size most of the time, any size otherwise
+        let letter = if rng.chance(3, 4) { tys[0].size() } else { gen_size(rng) };
+        let byte = rng.below(u64::from(span)) as u32;
+        let bit = if letter == Sz::X { rng.below(8) as u8 } else { 0 };
+        let sink = area == Ar::Q && rng.chance(1, 4);
+        c.add_decl(prog, kind, &tys, Some(Ad::flat(area, letter, byte, bit)), 0, sink);
     }
     let nfree = 2 + rng.below(6) as usize;
     for _ in 0..nfree {
         let ty = *rng.pick(&palette);
         let prog = if rng.bool() { None } else { Some(rng.below(nprogs as u64) as usize) };
-        vars.push(VarSpec { prog, ty, at: None, init: ty.zero(), sink_only: false });
+        c.add_decl(prog, DeclKind::Elem, &[ty], None, 0, false);
     }
-    let mut progs = Vec::new();
     for p in 0..nprogs {
-        let visible: Vec<usize> = (0..vars.len())
-            .filter(|i| *i > 0 && !fz.contains(i) && !stamp.contains(i) && !fq.contains(i))
-            .filter(|i| vars[*i].prog.is_none() || vars[*i].prog == Some(p))
+        let visible: Vec<usize> = (nspecial..c.vars.len())
+            .filter(|i| c.vars[*i].prog.is_none() || c.vars[*i].prog == Some(p))
             .collect();
         let mut body = vec![Stmt::Stamp(0, stamp[p])];
         let ncopies = rng.below(9) as usize;
@@ -1202,7 +1342,7 @@ fn gen_rt(rng: &mut Rng) -> RtCase {
             let srcs: Vec<usize> = visible
                 .iter()
                 .copied()
-                .filter(|s| *s != d && vars[*s].ty == vars[d].ty && !vars[*s].sink_only)
+                .filter(|s| *s != d && c.vars[*s].ty == c.vars[d].ty && !c.vars[*s].sink_only)
                 .collect();
             if srcs.is_empty() {
                 continue;
@@ -1210,22 +1350,10 @@ fn gen_rt(rng: &mut Rng) -> RtCase {
             body.push(Stmt::Copy(d, *rng.pick(&srcs)));
         }
         let pos = 1 + rng.below(body.len() as u64) as usize;
-        body.insert(pos.min(body.len()), Stmt::DivBy(fq[p], fz[p]));
-        progs.push(body);
+        body.insert(pos.min(body.len()), Stmt::DivBy(fq[p], c.fz[p]));
+        c.progs.push(body);
     }
-    let n = vars.len();
-    RtCase {
-        vars,
-        progs,
-        prog_task,
-        prio,
-        ndrivers: rng.below(4) as usize,
-        sizes,
-        debug: rng.chance(1, 3),
-        fz,
-        decl_override: vec![None; n],
-        extra_types: String::new(),
-    }
+    c
 }
 
 #[derive(Clone, Default)]
@@ -1303,55 +1431,56 @@ struct RtRun {
     control: Option<DebugControl>,
 }
 
-fn get_var(run: &RtRun, c: &RtCase, i: usize) -> Option<Value> {
-    let name = var_name(&c.vars, i);
-    match c.vars[i].prog {
-        None => run.h.runtime().storage().get_global(&name).cloned(),
-        Some(p) => run
-            .h
-            .runtime()
-            .storage()
-            .get_instance_var(run.ids[p], &name)
-            .cloned(),
+/// Reference to a leaf: the declaration's variable plus the index / field segment.
+fn leaf_ref(run: &RtRun, c: &RtCase, i: usize) -> Option<ValueRef> {
+    let d = &c.decls[c.vars[i].decl];
+    let name = decl_name(d);
+    let storage = run.h.runtime().storage();
+    let mut r = match d.prog {
+        None => storage.ref_for_global(&name),
+        Some(p) => storage.ref_for_instance(run.ids[p], &name),
+    }?;
+    match &c.vars[i].access {
+        Access::Plain => {}
+        Access::Index(k) => r.path.push(RefSegment::Index(vec![*k])),
+        Access::Field(j) => r.path.push(RefSegment::Field(format!("f{j}").into())),
     }
+    Some(r)
+}
+
+fn get_var(run: &RtRun, c: &RtCase, i: usize) -> Option<Value> {
+    let r = leaf_ref(run, c, i)?;
+    run.h.runtime().storage().read_by_ref(r).cloned()
 }
 
 fn set_var(run: &mut RtRun, c: &RtCase, i: usize, v: Value) {
-    let name = var_name(&c.vars, i);
-    match c.vars[i].prog {
-        None => run.h.runtime_mut().storage_mut().set_global(name, v),
-        Some(p) => {
-            let id = run.ids[p];
-            run.h.runtime_mut().storage_mut().set_instance_var(id, name, v);
-        }
-    }
+    let r = leaf_ref(run, c, i).expect("leaf reference");
+    assert!(run.h.runtime_mut().storage_mut().write_by_ref(r, v), "leaf write");
 }
 
 fn dump_vars(run: &RtRun, c: &RtCase) -> String {
     join((0..c.vars.len()).map(|i| opt_val_tok(get_var(run, c, i).as_ref())), ",")
 }
 
+fn same_ref(a: &ValueRef, b: &ValueRef) -> bool {
+    a.location == b.location
+        && a.offset == b.offset
+        && a.path.len() == b.path.len()
+        && a.path.iter().zip(b.path.iter()).all(|(x, y)| match (x, y) {
+            (RefSegment::Field(f), RefSegment::Field(g)) => f.eq_ignore_ascii_case(g),
+            (x, y) => x == y,
+        })
+}
+
 /// Canonical dump of the runtime's own binding list: `<var>@<addr>@<type>` in list order.
 fn dump_bindings(run: &RtRun, c: &RtCase) -> String {
-    let storage = run.h.runtime().storage();
+    let leaf_refs: Vec<Option<ValueRef>> = (0..c.vars.len()).map(|i| leaf_ref(run, c, i)).collect();
     let mut items = Vec::new();
     for b in run.h.runtime().io().bindings() {
         let var = match &b.target {
             IoTarget::Name(n) => format!("name:{n}"),
             IoTarget::Reference(r) => {
-                // find the variable the reference denotes
-                let mut found = None;
-                for i in 0..c.vars.len() {
-                    let name = var_name(&c.vars, i);
-                    let candidate = match c.vars[i].prog {
-                        None => storage.ref_for_global(&name),
-                        Some(p) => storage.ref_for_instance(run.ids[p], &name),
-                    };
-                    if candidate.as_ref() == Some(r) {
-                        found = Some(i);
-                    }
-                }
-                match found {
+                match leaf_refs.iter().position(|c| c.as_ref().map(|c| same_ref(c, r)).unwrap_or(false)) {
                     Some(i) => format!("{i}"),
                     None => format!("unknown-ref:{:?}", r.path.len()),
                 }
@@ -1370,19 +1499,19 @@ fn dump_bindings(run: &RtRun, c: &RtCase) -> String {
     }
 }
 
-/// The binding list the model is given: globals in declaration order, then the programs'
-/// variables in program order (the order `harness/config.rs` registers them in).
-fn expected_bindings(c: &RtCase) -> Vec<usize> {
+/// The AT declarations in the order `harness/config.rs` registers their bindings: globals in
+/// declaration order, then the programs' variables in program order.
+fn at_decls(c: &RtCase) -> Vec<usize> {
     let mut order = Vec::new();
-    for (i, v) in c.vars.iter().enumerate() {
-        if v.prog.is_none() && v.at.is_some() {
-            order.push(i);
+    for (k, d) in c.decls.iter().enumerate() {
+        if d.prog.is_none() && d.at.is_some() {
+            order.push(k);
         }
     }
     for p in 0..c.progs.len() {
-        for (i, v) in c.vars.iter().enumerate() {
-            if v.prog == Some(p) && v.at.is_some() {
-                order.push(i);
+        for (k, d) in c.decls.iter().enumerate() {
+            if d.prog == Some(p) && d.at.is_some() {
+                order.push(k);
             }
         }
     }
@@ -1426,9 +1555,18 @@ fn emit_rt_header(n: u64, c: &RtCase, run: &RtRun, out: &mut Out) {
         // the initial value is what the compiled runtime holds (the declared default)
         out.line(format!("var {i} {}", opt_val_tok(get_var(run, c, i).as_ref())));
     }
-    for i in expected_bindings(c) {
-        let v = &c.vars[i];
-        out.line(format!("bind ref {i} {} {}", v.at.as_ref().expect("at").tok(), v.ty.tok()));
+    // the AT declarations: the model derives the bindings (collect_io_bindings / offset_address)
+    for k in at_decls(c) {
+        let d = &c.decls[k];
+        out.line(format!("at {} {} {}", d.first, d.at.as_ref().expect("at").tok(), shape_tok(c, d)));
+        match d.kind {
+            DeclKind::Elem => out.count("rt_at_elem"),
+            DeclKind::Array { .. } => out.count("rt_at_array"),
+            DeclKind::Struct => out.count("rt_at_struct"),
+        }
+        if d.at.as_ref().map(|a| a.size) != Some(c.vars[d.first].ty.size()) {
+            out.count("rt_at_letter_differs");
+        }
     }
     out.line("bindings");
     out.line(format!("impl {}", dump_bindings(run, c)));
@@ -1565,7 +1703,7 @@ fn run_rt(n: u64, rng: &mut Rng, cycles: usize, out: &mut Out) -> Result<(), Str
                 break;
             }
             let i = *rng.pick(&ext_targets);
-            let wrong = c.vars[i].sink_only && c.vars[i].at.is_some() && rng.chance(1, 6);
+            let wrong = c.vars[i].sink_only && c.is_bound(i) && rng.chance(1, 6);
             let v = if wrong { gen_other_value(rng, c.vars[i].ty) } else { gen_value(rng, c.vars[i].ty) };
             if wrong {
                 out.count("rt_wrong_kind_ext");
@@ -1639,7 +1777,7 @@ fn run_rt(n: u64, rng: &mut Rng, cycles: usize, out: &mut Out) -> Result<(), Str
             multi = true;
         }
     }
-    let nb = expected_bindings(&c).len();
+    let nb = c.nbindings();
     if multi && nb >= 3 && c.ndrivers >= 1 {
         out.line("tag nontrivial");
     }
@@ -1661,51 +1799,36 @@ fn run_rt(n: u64, rng: &mut Rng, cycles: usize, out: &mut Out) -> Result<(), Str
 
 /// One bound variable of a type the compiler accepts for AT but the image coercions do not know.
 fn witness_case(kind: &str) -> RtCase {
-    let mut vars = vec![
-        VarSpec { prog: None, ty: Ty::DInt, at: None, init: Value::DInt(0), sink_only: true },
-        VarSpec { prog: None, ty: Ty::DInt, at: None, init: Value::DInt(1), sink_only: true },
-        VarSpec { prog: Some(0), ty: Ty::DInt, at: None, init: Value::DInt(0), sink_only: true },
-        VarSpec { prog: Some(0), ty: Ty::DInt, at: None, init: Value::DInt(0), sink_only: true },
-    ];
-    let mut decl_override = vec![None; 4];
-    let mut extra_types = String::new();
-    match kind {
-        "time-input" => {
-            // `t AT %ID0 : TIME` — io_size_for_type says DWord, coerce_from_io has no TIME arm
-            vars.push(VarSpec {
-                prog: Some(0),
-                ty: Ty::Time,
-                at: Some(Ad::flat(Ar::I, Sz::D, 0, 0)),
-                init: Value::Null,
-                sink_only: true,
-            });
-            decl_override.push(None);
-        }
-        _ => {
-            // `e AT %QW0 : Color` — leaf_value_type says INT, the variable holds Value::Enum
-            extra_types.push_str("TYPE Color : (Red, Green, Blue); END_TYPE\n");
-            vars.push(VarSpec {
-                prog: Some(0),
-                ty: Ty::Int,
-                at: Some(Ad::flat(Ar::Q, Sz::W, 0, 0)),
-                init: Value::Null,
-                sink_only: true,
-            });
-            decl_override.push(Some("Color".to_string()));
-        }
-    }
-    RtCase {
-        vars,
-        progs: vec![vec![Stmt::Stamp(0, 2), Stmt::DivBy(3, 1)]],
+    let mut c = RtCase {
+        vars: Vec::new(),
+        decls: Vec::new(),
+        progs: Vec::new(),
         prog_task: vec![None],
         prio: vec![],
         ndrivers: 1,
         sizes: [4, 4, 0],
         debug: false,
         fz: vec![1],
-        decl_override,
-        extra_types,
+        extra_types: String::new(),
+    };
+    c.add_decl(None, DeclKind::Elem, &[Ty::DInt], None, 0, true); // 0 seq
+    c.add_decl(None, DeclKind::Elem, &[Ty::DInt], None, 1, true); // 1 fz
+    c.add_decl(Some(0), DeclKind::Elem, &[Ty::DInt], None, 0, true); // 2 stamp
+    c.add_decl(Some(0), DeclKind::Elem, &[Ty::DInt], None, 0, true); // 3 fq
+    match kind {
+        "time-input" => {
+            // `l4 AT %ID0 : TIME` — io_size_for_type says DWord, coerce_from_io has no TIME arm
+            c.add_decl(Some(0), DeclKind::Elem, &[Ty::Time], Some(Ad::flat(Ar::I, Sz::D, 0, 0)), 0, true);
+        }
+        _ => {
+            // `l4 AT %QW0 : Color` — leaf_value_type says INT, the variable holds Value::Enum
+            c.extra_types.push_str("TYPE Color : (Red, Green, Blue); END_TYPE\n");
+            c.add_decl(Some(0), DeclKind::Elem, &[Ty::Int], Some(Ad::flat(Ar::Q, Sz::W, 0, 0)), 0, true);
+            c.decls[4].type_override = Some("Color".to_string());
+        }
     }
+    c.progs.push(vec![Stmt::Stamp(0, 2), Stmt::DivBy(3, 1)]);
+    c
 }
 
 fn run_witness(n: u64, kind: &str, out: &mut Out) -> Result<(), String> {
